@@ -1099,6 +1099,13 @@ func (a *adversary) noBatch() bool {
 // forgeTC returns a timeout certificate that no quorum of timeouts backs.
 func (a *adversary) forgeTC(nd *Node) hotstuff.TimeoutCert {
 	v := nd.states.View() + hotstuff.View(a.intn(30))
+	if mix(a.w.plan.Inner, 0x7a657274, a.ctr)%8 == 0 {
+		// the certificate of view 0 (which needs no signature) carrying one: its own, over anything
+		if junk := a.ownSig(nd, []byte("view zero")); junk != nil {
+			a.fired("forgetc-view-zero-signed")
+			return hotstuff.NewTimeoutCert(junk, 0)
+		}
+	}
 	switch a.intn(4) {
 	case 0: // its own signature alone, for some later view
 		return hotstuff.NewTimeoutCert(a.ownSig(nd, v.ToBytes()), v)
